@@ -340,7 +340,7 @@ VMLoop:
 			if bp == 0 {
 				bp = vm.curFrame.fn.NumLocals + 1
 			}
-			if numRet == 1 {
+			if numRet == 1 && !vm.curFrame.discardRet {
 				vm.stack[bp-1] = vm.stack[vm.sp-1]
 			} else {
 				vm.stack[bp-1] = Undefined
@@ -764,6 +764,7 @@ func (vm *VM) initCurrentFrame() {
 
 	vm.curFrame.errHandlers = nil
 	vm.curFrame.basePointer = 0
+	vm.curFrame.discardRet = false
 }
 
 func (vm *VM) clearCurrentFrame() {
@@ -1144,6 +1145,11 @@ func (vm *VM) xOpCallCompiled(cfunc *CompiledFunction, numArgs, flags int) error
 			vm.sp = newSp
 			vm.ip = -1                    // reset ip to beginning of the frame
 			vm.curFrame.errHandlers = nil // reset error handlers if any set
+			if nextOp == OpPop {
+				// the value of the call is discarded by the caller, which
+				// then returns nothing: the reused frame must do the same
+				vm.curFrame.discardRet = true
+			}
 			return nil
 		}
 	}
@@ -1159,6 +1165,7 @@ func (vm *VM) xOpCallCompiled(cfunc *CompiledFunction, numArgs, flags int) error
 	frame.freeVars = cfunc.Free
 	frame.errHandlers = nil
 	frame.basePointer = basePointer
+	frame.discardRet = false
 
 	vm.curFrame.ip = vm.ip + 2
 	vm.curInsts = cfunc.Instructions
@@ -1512,6 +1519,7 @@ type frame struct {
 	ip          int
 	basePointer int
 	errHandlers *errHandlers
+	discardRet  bool
 }
 
 func getFrameSourcePos(frame *frame) parser.Pos {
